@@ -130,10 +130,13 @@ PrefixClosed == \A p \in DOMAIN tree : Len(p) >= 1 /\ \A k \in 1..Len(p) : SubSe
 (* from the root and (with a view) relative to the base                    *)
 AllOf(t) == [i \in 1..Len(Uni) |-> TGet(t, Uni[i])]
 RelOf(t) == [i \in 1..Len(RelUni) |-> TGet(t, Base \o RelUni[i])]
-AnsC(a, arg, ret) ==
+\* anyret: the property is silent about the answer of this call
+AnsCx(a, arg, ret, anyret) ==
   obs' = [a |-> a, arg |-> arg,
-          exp |-> [ret |-> ret, all |-> AllOf(tree'), rel |-> RelOf(tree'),
+          exp |-> [ret |-> ret, anyret |-> anyret, all |-> AllOf(tree'), rel |-> RelOf(tree'),
                    all2 |-> [i \in 1..Len(Uni) |-> SGet(st', Uni[i])]]]
+AnsC(a, arg, ret) == AnsCx(a, arg, ret, FALSE)
+AnyC(a, arg) == AnsCx(a, arg, "any", TRUE)
 \* how the driver addresses a path: the string, its separator
 Str(p) == Join(p, Sep)
 
@@ -144,26 +147,26 @@ Vias == IF Base = <<>> THEN {"top"} ELSE {"top", "view"}
 KeepPath == UNCHANGED <<pel, po>>
 
 \* mpt_config_set(cfg, path, value, sep, 0) / config::set(path, value, sep)
-Assign(via, p, v) ==
+Assign(via, p, v, sep) ==
   /\ p # <<>>
   /\ tree' = TAssign(tree, Eff(via, p), v)
   /\ st' = SAssign(st, Eff(via, p), v)
   /\ KeepPath
-  /\ AnsC("assign", [via |-> via, path |-> Str(p), sep |-> Sep, val |-> v], "ok")
+  /\ AnsC("assign", [via |-> via, path |-> Join(p, sep), sep |-> sep, val |-> v], "ok")
 
 \* mpt_config_set(cfg, path, 0, sep, 0) / config::set(path, 0, sep): the element
 \* and everything below it goes; nothing else
-Remove(via, p) ==
+Remove(via, p, sep) ==
   /\ p # <<>>
   /\ tree' = TRemove(tree, Eff(via, p))
   /\ st' = SRemove(st, Eff(via, p))
   /\ KeepPath
-  /\ AnsC("remove", [via |-> via, path |-> Str(p), sep |-> Sep], "any")
+  /\ AnyC("remove", [via |-> via, path |-> Join(p, sep), sep |-> sep])
 
 \* query of a single path with its own separator string (mpt_config_getp)
-Query(via, p) ==
+Query(via, p, sep) ==
   /\ p # <<>> /\ UNCHANGED <<tree, st>> /\ KeepPath
-  /\ AnsC("query", [via |-> via, path |-> Str(p), sep |-> Sep], TGet(tree, Eff(via, p)))
+  /\ AnsC("query", [via |-> via, path |-> Join(p, sep), sep |-> sep], TGet(tree, Eff(via, p)))
 
 \* through the view: the base element's own value (empty relative path)
 AssignSelf(v) ==
@@ -176,12 +179,12 @@ ClearBelow ==
   /\ Base # <<>>
   /\ tree' = TClearBelow(tree, Base) /\ st' = SClearBelow(st, Base)
   /\ KeepPath
-  /\ AnsC("clearbelow", [x |-> 0], "any")
+  /\ AnyC("clearbelow", [x |-> 0])
 \* from the root with an empty path: the whole configuration goes
 ClearAll ==
   /\ tree' = << >> /\ st' = <<>>
   /\ KeepPath
-  /\ AnsC("clearall", [x |-> 0], "any")
+  /\ AnyC("clearall", [x |-> 0])
 
 ---------------------------------------------------------------------------
 (* path object *)
@@ -201,8 +204,9 @@ RECURSIVE Walk(_)
 Walk(p) == IF p.len = 0 THEN <<>>
            ELSE LET n == NextH(p) IN <<SubSeq(p.buf, p.off + 1, p.off + n.r)>> \o Walk(n.p)
 
-AnsP(a, arg, ret) ==
-  obs' = [a |-> a, arg |-> arg, exp |-> [ret |-> ret, els |-> pel', els2 |-> Walk(po')]]
+AnsPx(a, arg, ret, anyret) ==
+  obs' = [a |-> a, arg |-> arg, exp |-> [ret |-> ret, anyret |-> anyret, els |-> pel', els2 |-> Walk(po')]]
+AnsP(a, arg, ret) == AnsPx(a, arg, ret, FALSE)
 
 \* mpt_path_set(path, str, -1) with separator sep and end character asg
 PSet(s, sep, asg) ==
@@ -213,14 +217,14 @@ PSet(s, sep, asg) ==
   /\ pel' = Split(body, sep)
   /\ po' = [buf |-> s \o <<0>>, off |-> 0, len |-> Len(body) + 1, first |-> fl, sep |-> sep, asg |-> asg]
   /\ KeepStore
-  /\ AnsP("pset", [str |-> s, sep |-> sep, asg |-> asg], "any")
+  /\ AnsPx("pset", [str |-> s, sep |-> sep, asg |-> asg], "any", TRUE)
 
 \* mpt_path_next: the first element is consumed, its length answered
 PNext ==
   /\ pel' = IF pel = <<>> THEN pel ELSE Rest(pel)
   /\ po' = NextH(po).p
   /\ KeepStore
-  /\ AnsP("pnext", [x |-> 0], IF pel = <<>> THEN "none" ELSE Len(pel[1]))
+  /\ AnsP("pnext", [x |-> 0], IF pel = <<>> THEN -1 ELSE Len(pel[1]))
 
 \* mpt_path_last: only the last element remains, its length answered
 PLast ==
@@ -231,7 +235,7 @@ PLast ==
                     b  == IF js = {} THEN po.off ELSE CHOOSE i \in js : \A k \in js : k <= i
                 IN [po EXCEPT !.off = b, !.len = e - b + 1, !.first = IF e - b > 255 THEN 0 ELSE e - b]
   /\ KeepStore
-  /\ AnsP("plast", [x |-> 0], IF pel = <<>> THEN "none" ELSE Len(pel[Len(pel)]))
+  /\ AnsP("plast", [x |-> 0], IF pel = <<>> THEN -1 ELSE Len(pel[Len(pel)]))
 
 \* mpt_path_addchar + mpt_path_valid for every character of e, then
 \* mpt_path_add(path, Len(e)): e becomes the last element
@@ -261,7 +265,7 @@ PDel ==
                     b  == IF js = {} THEN po.off ELSE CHOOSE i \in js : \A k \in js : k <= i
                 IN [po EXCEPT !.len = b - po.off, !.first = IF b = po.off THEN 0 ELSE @]
   /\ KeepStore
-  /\ AnsP("pdel", [x |-> 0], IF pel = <<>> THEN "none" ELSE Len(pel[Len(pel)]))
+  /\ AnsP("pdel", [x |-> 0], IF pel = <<>> THEN -1 ELSE Len(pel[Len(pel)]))
 
 PathRefines == Walk(po) = pel
 
@@ -272,7 +276,7 @@ Init ==
   /\ obs = [a |-> "init", arg |-> [base |-> IF Base = <<>> THEN <<>> ELSE Str(Base), sep |-> Sep,
                                     uni |-> [i \in 1..Len(Uni) |-> Str(Uni[i])],
                                     rel |-> [i \in 1..Len(RelUni) |-> IF RelUni[i] = <<>> THEN <<0>> ELSE Str(RelUni[i])]],
-            exp |-> [ret |-> "ok", all |-> [i \in 1..Len(Uni) |-> NoVal],
+            exp |-> [ret |-> "ok", anyret |-> FALSE, all |-> [i \in 1..Len(Uni) |-> NoVal],
                      rel |-> [i \in 1..Len(RelUni) |-> NoVal],
                      all2 |-> [i \in 1..Len(Uni) |-> NoVal]]]
 
@@ -280,8 +284,8 @@ UniSet == {Uni[i] : i \in 1..Len(Uni)}
 RelSet == {RelUni[i] : i \in 1..Len(RelUni)} \ {<<>>}
 PathsVia(via) == IF via = "view" THEN RelSet ELSE UniSet
 NextC ==
-  \/ \E via \in Vias : \E p \in PathsVia(via) : \E v \in Vals : Assign(via, p, v)
-  \/ \E via \in Vias : \E p \in PathsVia(via) : Remove(via, p) \/ Query(via, p)
+  \/ \E via \in Vias : \E p \in PathsVia(via) : \E v \in Vals : Assign(via, p, v, Sep)
+  \/ \E via \in Vias : \E p \in PathsVia(via) : Remove(via, p, Sep) \/ Query(via, p, Sep)
   \/ \E v \in Vals : AssignSelf(v)
   \/ ClearBelow \/ ClearAll
 \* (a set replaces the object whatever it was: all strings are offered to a
